@@ -58,6 +58,19 @@ pub trait Conv: Sized {
     fn to_mval(&self, t: &MType) -> MVal;
     /// some value of this type, shaped after `t` where the shapes align (any `t`)
     fn witness(t: &MType, seed: u64) -> Self;
+    /// the emptiest value of this type: collections empty, Options None
+    fn witness_min(t: &MType, seed: u64) -> Self {
+        Self::witness(t, seed)
+    }
+    /// relation for binding `witness_min`: only the shapes that exist in the value can be judged, so an
+    /// element-type mismatch under an empty collection is unspecified, while a wrong outer shape is still a misfit
+    fn ser_rel_min(t: &MType) -> Rel {
+        Self::ser_rel(t)
+    }
+}
+
+fn unspecified_unless_accept(r: Rel) -> Rel {
+    if r == Rel::Accept { Rel::Accept } else { Rel::Unspecified }
 }
 
 fn mix(seed: u64, k: u64) -> u64 {
@@ -304,6 +317,13 @@ impl<T: Conv> Conv for Option<T> {
     fn witness(t: &MType, seed: u64) -> Self {
         Some(T::witness(t, seed))
     }
+    fn witness_min(_t: &MType, _seed: u64) -> Self {
+        None
+    }
+    fn ser_rel_min(_t: &MType) -> Rel {
+        // a null fits any column
+        Rel::Accept
+    }
 }
 
 macro_rules! passthrough {
@@ -326,6 +346,12 @@ macro_rules! passthrough {
             }
             fn witness(t: &MType, seed: u64) -> Self {
                 $mk(T::witness(t, seed))
+            }
+            fn witness_min(t: &MType, seed: u64) -> Self {
+                $mk(T::witness_min(t, seed))
+            }
+            fn ser_rel_min(t: &MType) -> Rel {
+                T::ser_rel_min(t)
             }
         }
     };
@@ -414,6 +440,16 @@ impl<T: Conv> Conv for Vec<T> {
         let e = seq_elem(t);
         (0..seq_witness_len(t, seed)).map(|i| T::witness(e, mix(seed, i as u64 + 10))).collect()
     }
+    fn witness_min(_t: &MType, _seed: u64) -> Self {
+        Vec::new()
+    }
+    fn ser_rel_min(t: &MType) -> Rel {
+        match t {
+            MType::List(e) | MType::Set(e) => unspecified_unless_accept(T::ser_rel(e)),
+            // an empty Vec has the wrong length for any vector column (dimensions are >= 1)
+            _ => Rel::Reject,
+        }
+    }
 }
 
 macro_rules! set_like {
@@ -451,6 +487,16 @@ macro_rules! set_like {
             fn witness(t: &MType, seed: u64) -> Self {
                 let e = seq_elem(t);
                 (0..1 + (seed % 3)).map(|i| T::witness(e, mix(seed, i + 20))).collect()
+            }
+            fn witness_min(_t: &MType, _seed: u64) -> Self {
+                $w::new()
+            }
+            fn ser_rel_min(t: &MType) -> Rel {
+                match t {
+                    MType::Set(e) => unspecified_unless_accept(T::ser_rel(e)),
+                    MType::List(_) => Rel::Unspecified,
+                    _ => Rel::Reject,
+                }
             }
         }
     };
@@ -491,6 +537,15 @@ macro_rules! map_like {
                     other => (other, other),
                 };
                 (0..1 + (seed % 2)).map(|i| (K::witness(kt, mix(seed, i + 30)), V::witness(vt, mix(seed, i + 40)))).collect()
+            }
+            fn witness_min(_t: &MType, _seed: u64) -> Self {
+                $w::new()
+            }
+            fn ser_rel_min(t: &MType) -> Rel {
+                match t {
+                    MType::Map(k, v) => unspecified_unless_accept(K::ser_rel(k).and(V::ser_rel(v))),
+                    _ => Rel::Reject,
+                }
             }
         }
     };
@@ -540,6 +595,23 @@ macro_rules! tuple_conv {
                     other => other,
                 };
                 ($($T::witness(field($i), mix(seed, $i + 50)),)+)
+            }
+            fn witness_min(t: &MType, seed: u64) -> Self {
+                let field = |i: usize| match t {
+                    MType::Tuple(ts) if i < ts.len() => &ts[i],
+                    other => other,
+                };
+                ($($T::witness_min(field($i), mix(seed, $i + 60)),)+)
+            }
+            fn ser_rel_min(t: &MType) -> Rel {
+                match t {
+                    MType::Tuple(ts) if ts.len() < $n => Rel::Reject,
+                    MType::Tuple(ts) => {
+                        let r = Rel::Accept $(.and($T::ser_rel_min(&ts[$i])))+;
+                        if ts.len() > $n { r.weaken() } else { r }
+                    }
+                    _ => Rel::Reject,
+                }
             }
         }
     };
@@ -611,6 +683,10 @@ pub trait Carrier: Send + Sync {
     fn de_rel(&self, t: &MType) -> Rel;
     /// binds a witness value; returns the outcome and the model of what was bound
     fn add_witness(&self, sv: &mut SerializedValues, t: &MType, ct: &ColumnType, seed: u64) -> (Result<(), String>, Option<MVal>);
+    /// same for the emptiest value of the type (None where it is no different from the witness)
+    fn add_witness_min(&self, _sv: &mut SerializedValues, _t: &MType, _ct: &ColumnType, _seed: u64) -> Option<(Rel, Result<(), String>, Option<MVal>)> {
+        None
+    }
     fn type_check(&self, ct: &ColumnType) -> Result<(), String>;
     /// binds the carrier's representation of `v` (None: not representable); returns outcome and the
     /// model of what the carrier holds (`from_mval` then `to_mval`)
@@ -646,6 +722,12 @@ where
         let w = T::witness(t, seed);
         let model = if T::ser_rel(t) == Rel::Accept { Some(w.to_mval(t)) } else { None };
         (sv.add_value(&w, ct).map_err(|e| e.to_string()), model)
+    }
+    fn add_witness_min(&self, sv: &mut SerializedValues, t: &MType, ct: &ColumnType, seed: u64) -> Option<(Rel, Result<(), String>, Option<MVal>)> {
+        let rel = T::ser_rel_min(t);
+        let w = T::witness_min(t, seed);
+        let model = if rel == Rel::Accept && T::ser_rel(t) == Rel::Accept { Some(w.to_mval(t)) } else { None };
+        Some((rel, sv.add_value(&w, ct).map_err(|e| e.to_string()), model))
     }
     fn type_check(&self, ct: &ColumnType) -> Result<(), String> {
         <T as DeserializeValue>::type_check(ct).map_err(|e| e.to_string())
